@@ -82,6 +82,9 @@ func Send[T any](ch chan T, v T) {
 		return
 	}
 	name := chanName(any(ch))
+	cur := S.cur
+	cur.Pending = any(v) // visible to manual-mode harnesses while the thread is parked in front of the send
+	defer func() { cur.Pending = nil }()
 	if cap(ch) > 0 {
 		Block("send", name, func() bool { return len(ch) < cap(ch) || isClosed(ch) })
 		hbSend(any(ch))
